@@ -49,6 +49,7 @@ def C03(rep, prog, tier):
         cls = _class_of(table, key)
         if cls:
             be = mcsops.Backend(name, cls, lex=False)
+            mcsops.preprocess_flow(rep, ex, be, "W")
             mcsops.w_rec(rep, ex, be)
             mcsops.w_entry(rep, ex, be, strict=True, extended=False)
     wrappers.shortcut_guard(rep, ex)
@@ -65,6 +66,7 @@ def C04(rep, prog, tier):
         cls = _class_of(table, key)
         if cls:
             be = mcsops.Backend(name, cls, lex=True)
+            mcsops.preprocess_flow(rep, ex, be, "LEX")
             mcsops.lex_rec(rep, ex, be)
             mcsops.lex_ties(rep, ex, be)
             mcsops.w_entry(rep, ex, be, strict=True, extended=False, prefix="LEX", n_objects=2)
